@@ -181,6 +181,18 @@ def _exc_key(name, exc, cls):
     return "%s/exception:%s/%s" % (name, type(exc).__name__, cls)
 
 
+def _first_sight(exc):
+    """an exception propagating through nested monitored helpers is judged
+    once, by the innermost one."""
+    if getattr(exc, "_gtmon_seen", False):
+        return False
+    try:
+        exc._gtmon_seen = True
+    except Exception:
+        pass
+    return True
+
+
 def _tb(exc):
     return "".join(traceback.format_exception(type(exc), exc, exc.__traceback__))[-3000:]
 
@@ -223,6 +235,8 @@ def hook_indefinite_orthogonalize(call, state):
     if not ok_units:
         return mon.skip("rows not in general position (Gram pivot < 1e-3)")
     cls = "1-d" if one_d else ("batch" if batch else "unit")
+    if call.exc is not None and not _first_sight(call.exc):
+        return mon.skip("exception already judged at an inner monitored call")
     if call.exc is not None:
         if all_units_ok:
             mon.fail(_exc_key("indefinite_orthogonalize", call.exc, cls),
@@ -289,6 +303,8 @@ def hook_find_isometry(call, state):
     cls = "k=n" if k == n else ("1-d" if M.ndim < 2 else ("batch" if batch else "unit"))
     case = {"function": "find_isometry", "form": F,
             "partial_map": M if M.size <= 200 else M.shape, "force_oriented": fo}
+    if call.exc is not None and not _first_sight(call.exc):
+        return mon.skip("exception already judged at an inner monitored call")
     if call.exc is not None:
         return mon.fail(_exc_key("find_isometry", call.exc, cls),
                         "find_isometry raised %s: %s on an in-domain input"
@@ -358,6 +374,8 @@ def hook_find_definite_isometry(call, state):
     cls = "1-d" if one_d else ("batch" if batch else ("k=n" if k == n else "k<n"))
     case = {"function": "find_definite_isometry",
             "partial_map": M if M.size <= 200 else M.shape, "force_oriented": fo}
+    if call.exc is not None and not _first_sight(call.exc):
+        return mon.skip("exception already judged at an inner monitored call")
     if call.exc is not None:
         return mon.fail(_exc_key("find_definite_isometry", call.exc, cls),
                         "find_definite_isometry raised %s: %s on a documented (...,k,n) input"
@@ -424,6 +442,8 @@ def hook_orthogonal_complement(call, state):
     case = {"function": "orthogonal_complement", "form": F,
             "vectors": M if M.size <= 200 else M.shape, "normalize": nm}
     inner_ok = all(v["in_domain"] for v in inner)
+    if call.exc is not None and not _first_sight(call.exc):
+        return mon.skip("exception already judged at an inner monitored call")
     if call.exc is not None:
         if nm == "form" and not inner_ok:
             return mon.skip("internal orthogonalisation out of domain")
@@ -501,6 +521,8 @@ def hook_diagonalize_form(call):
                           "with_inverse" if with_inv else "W-only", "batch" if batch else "unit")
     case = {"function": "diagonalize_form", "form": B if B.size <= 200 else B.shape,
             "order_eigenvalues": order, "reverse": reverse, "with_inverse": with_inv}
+    if call.exc is not None and not _first_sight(call.exc):
+        return mon.skip("exception already judged at an inner monitored call")
     if call.exc is not None:
         return mon.fail(_exc_key("diagonalize_form", call.exc, cls),
                         "diagonalize_form raised %s: %s" % (type(call.exc).__name__, str(call.exc)[:160]),
@@ -637,6 +659,8 @@ def make_kernel_hook(name):
             if call.exc is not None and isinstance(call.exc, ValueError):
                 return mon.ok()
             return mon.skip("ranks differ inside the batch (matching_rank=True)")
+        if call.exc is not None and not _first_sight(call.exc):
+            return mon.skip("exception already judged at an inner monitored call")
         if call.exc is not None:
             return mon.fail(_exc_key(name, call.exc, cls),
                             "%s raised %s: %s" % (name, type(call.exc).__name__, str(call.exc)[:160]),
@@ -720,6 +744,8 @@ def hook_sphere_through(call):
         return mon.skip("zero-dimensional")
     P = P.astype(float)
     case = {"function": "sphere_through", "points": P if P.size <= 200 else P.shape}
+    if call.exc is not None and not _first_sight(call.exc):
+        return mon.skip("exception already judged at an inner monitored call")
     if call.exc is not None:
         if all(lin.simplex_margin(P[ix]) >= PIV for ix in _units(P.shape[:-2])):
             mon.fail(_exc_key("sphere_through", call.exc, "%d-points" % P.shape[-2]),
@@ -746,6 +772,8 @@ def hook_circle_through(call):
     if not np.all(np.isfinite(P)):
         return mon.skip("points not finite")
     case = {"function": "circle_through", "points": P if P.size <= 200 else P.shape}
+    if call.exc is not None and not _first_sight(call.exc):
+        return mon.skip("exception already judged at an inner monitored call")
     if call.exc is not None:
         if all(lin.simplex_margin(P[ix]) >= PIV for ix in _units(P.shape[:-2])):
             mon.fail(_exc_key("circle_through", call.exc, "3-points"),
@@ -789,6 +817,8 @@ def _angle_hook(name, lo, hi, lo_open):
             if lo_open:
                 return bool(np.all((x > lo) & (x < hi)))
             return bool(np.all((x >= lo) & (x <= hi)))
+        if call.exc is not None and not _first_sight(call.exc):
+            return mon.skip("exception already judged at an inner monitored call")
         if call.exc is not None:
             if in_range(th) and (ref is None or in_range(ref)):
                 mon.fail(_exc_key(name, call.exc, cls),
@@ -945,7 +975,16 @@ def wl_frames(run, rng, idx):
             run.monitor("indefinite_orthogonalize").diag("generator found no rows in class %s" % cls)
             continue
         if fkind == "integer" and cls == "bulk":
-            rows = np.round(rows * 4)        # integer rows (re-classified by the monitor)
+            # exact class: integer rows, kept only if still in general position
+            r_int = np.round(rows * 4)
+            ok = True
+            for ix in (np.ndindex(*batch) if batch else [()]):
+                minors, piv = lin.pivots(r_int[ix], F)
+                if not (np.all(np.isfinite(piv)) and np.min(np.abs(piv)) >= 0.02
+                        and np.min(np.abs(minors)) >= (2 * PIV) ** k):
+                    ok = False
+            if ok:
+                rows = r_int
         run.current_case = {"workload": "frames", "signature": [p, q], "k": k,
                             "batch": list(batch), "class": cls, "form": F, "rows": rows}
         run.note_class("frames", (p, q), k, batch, cls, fkind)
